@@ -236,35 +236,101 @@ def check_printing(chk, ix):
             vals = [v for (_, k, v) in outs if k == "val"]
             if len(outs) != 1 or len(vals) != 1 or not isinstance(vals[0], str):
                 raise AnalysisError("Not.__str__ not foldable for a %s operand: %r" % (kind, [(k, v) for _, k, v in outs]))
-            squeezed = vals[0].replace(" ", "")
-            want = "not(" + text.replace(" ", "") + ")" if kind not in ("And", "Or") else "not" + text.replace(" ", "")
-            # operand must stay one delimited unit directly under 'not'
-            if squeezed == want and vals[0].startswith("not "):
-                chk.ok("T3", {"Not of": kind, "prints": vals[0]}, nontrivial_key=("not", kind))
+            if kind == "True_":
+                ok_ = vals[0].startswith("not")
             else:
-                _fail(chk, "T3", nf, "not %s -> %r" % (kind, vals[0]), "Not(%s printed as %r) prints as %r: the operand is not kept as one "
-                      "parenthesised unit directly under 'not', re-parsing the text denotes another formula" % (kind, text, vals[0]))
+                try:
+                    names, table = _v2_table(text)
+                    names2, table2 = _v2_table(vals[0])
+                    ok_ = names2 == names and table2 == tuple(not b for b in table)
+                except ValueError:
+                    ok_ = False
+            if ok_:
+                chk.ok("T3", {"Not of": kind, "operand prints": text, "prints": vals[0]}, nontrivial_key=("not", kind))
+            else:
+                _fail(chk, "T3", nf, "not %s -> %r" % (kind, vals[0]), "Not(%s printed as %r) prints as %r, which does not read back as the "
+                      "negation of the operand (not binds tighter than and/or: the operand must stay one unit)" % (kind, text, vals[0]))
     else:
         chk.notes.append("Not.__str__ is not patched: the third-party printing applies (trusted)")
     if tf is not None:
-        for pretty in (True, False):
-            text = "( a and ( not ( b ) or c.* ) )"
-            it = Interp(ix, name="to_string")
-            st = State()
-            st.frames = []
-            outs = it.call_function(st, tf, [pretty], {}, None, self_val=ExprTok("And", text))
-            chk.absorb(it)
-            chk.instance("T3")
-            vals = [v for (_, k, v) in outs if k == "val"]
-            if len(outs) != 1 or len(vals) != 1 or not isinstance(vals[0], str):
-                raise AnalysisError("to_string not foldable: %r" % ([(k, v) for _, k, v in outs],))
-            import re as _re
-            toks = lambda t: _re.findall(r"[()]|[^\s()]+", t)      # noqa: E731
-            if toks(vals[0]) == toks(text) and (pretty or vals[0] == text):
-                chk.ok("T3", {"to_string(pretty=%s)" % pretty: vals[0]}, nontrivial_key=("to_string", pretty))
-            else:
-                _fail(chk, "T3", tf, "to_string(pretty=%s) -> %r" % (pretty, vals[0]), "to_string(pretty=%s) turns %r into %r: more than blanks "
-                      "next to parentheses changed" % (pretty, text, vals[0]))
+        samples = ["( a and ( not ( b ) or c.* ) )", "not ( a and b )", "( not ( a or b ) and c )", "not ( not ( a ) )", "( a or b )", "not ( a )",
+                   "( not ( a ) and not ( b or c ) )", "a"]
+        for text in samples:
+            for pretty in (True, False):
+                it = Interp(ix, name="to_string")
+                it.fold_regex = True
+                st = State()
+                st.frames = []
+                outs = it.call_function(st, tf, [pretty], {}, None, self_val=ExprTok("And", text))
+                chk.absorb(it)
+                chk.instance("T3")
+                vals = [v for (_, k, v) in outs if k == "val"]
+                if len(outs) != 1 or len(vals) != 1 or not isinstance(vals[0], str):
+                    raise AnalysisError("to_string not foldable on %r: %r" % (text, [(k, v) for _, k, v in outs],))
+                try:
+                    same = _v2_table(vals[0]) == _v2_table(text)
+                except ValueError as e:
+                    same = False
+                if same and (pretty or vals[0] == text):
+                    chk.ok("T3", {"str()": text, "to_string(pretty=%s)" % pretty: vals[0]}, nontrivial_key=("to_string", text, pretty))
+                else:
+                    _fail(chk, "T3", tf, "to_string(pretty=%s) of %r -> %r" % (pretty, text, vals[0]),
+                          "to_string(pretty=%s) turns the printed expression %r into %r, which %s" % (
+                              pretty, text, vals[0], "denotes another formula when parsed again (not binds tighter than and/or)" if pretty or vals[0] != text else "differs"))
+
+
+def _v2_table(text):
+    """truth table of a v2 expression text over its operands (reference reading of the grammar: not > and > or)"""
+    import re as _re
+    import itertools as _it
+    toks = _re.findall(r"[()]|[^\s()]+", text)
+    names = sorted({t for t in toks if t not in ("(", ")", "and", "or", "not")})
+
+    def parse(env):
+        pos = [0]
+
+        def peek():
+            return toks[pos[0]] if pos[0] < len(toks) else None
+
+        def take():
+            pos[0] += 1
+            return toks[pos[0] - 1]
+
+        def p_or():
+            v = p_and()
+            while peek() == "or":
+                take()
+                r = p_and()
+                v = v or r
+            return v
+
+        def p_and():
+            v = p_not()
+            while peek() == "and":
+                take()
+                r = p_not()
+                v = v and r
+            return v
+
+        def p_not():
+            if peek() == "not":
+                take()
+                return not p_not()
+            if peek() == "(":
+                take()
+                v = p_or()
+                if take() != ")":
+                    raise ValueError("unbalanced")
+                return v
+            t = take()
+            if t is None or t in (")", "and", "or"):
+                raise ValueError("operand expected")
+            return env[t]
+        v = p_or()
+        if pos[0] != len(toks):
+            raise ValueError("trailing tokens")
+        return v
+    return names, tuple(parse(dict(zip(names, bits))) for bits in _it.product((False, True), repeat=len(names)))
 
 
 class AtText(object):
@@ -524,6 +590,76 @@ def check_v1(chk, ix):
                   "old-style arguments %r are stored as %r with limits %r; expected %r / %r (a leading - or ~ must survive "
                   "'@' and ':limit' decoration)" % (text, ands, limits, want_ands, want_limits))
     chk.absorb(it2)
+
+
+def check_v1_end_to_end(chk, ix):
+    """U1 end to end: every rendering style of small CNF formulas is parsed by the real __init__ (and, for the string
+    form, by _parse_tag_expression_v1) and evaluated by the real check() on every subset of the tag universe."""
+    tc = ix.cls("behave.tag_expression.v1:TagExpression")
+    init, chk_f = tc.lookup("__init__"), tc.lookup("check")
+    pv1 = ix.func("behave.tag_expression.builder:_parse_tag_expression_v1")
+    lits = ["a", "-a", "b", "-b"]
+    groups = [(x,) for x in lits] + [(x, y) for x in lits for y in lits if x != y]
+    formulas = [(g,) for g in groups] + [(g, h) for g in groups[:4] for h in groups[4:10]]
+    styles = {
+        "plain": lambda neg, t: ("-" if neg else "") + t,
+        "at": lambda neg, t: ("-@" if neg else "@") + t,
+        "tilde": lambda neg, t: ("~" if neg else "") + t,
+        "tilde-at": lambda neg, t: ("~@" if neg else "@") + t,
+        "limit": lambda neg, t: ("-@" if neg else "@") + t + ":3",
+        "padded": lambda neg, t: (" -@" if neg else " @") + t + " ",
+    }
+    universe = [(), ("a",), ("b",), ("a", "b")]
+    it = Interp(ix, name="v1 end to end")
+    it.eager_generators = True
+    it.int_sat = 1000
+    it.list_cap = 100
+    n = 0
+    for formula in formulas:
+        for sname, render in sorted(styles.items()):
+            if sname in ("limit", "padded") and len(formula) > 1:
+                continue
+            args = [",".join(render(l.startswith("-"), l.lstrip("-")) for l in g) for g in formula]
+            for form in ("list", "string"):
+                if form == "string" and (sname == "padded" or n % 3):
+                    n += 1
+                    continue
+                n += 1
+                st = State()
+                st.frames = []
+                me = st.alloc(HObj(tc, {}, label="v1 expression"))
+                if form == "list":
+                    arg = st.alloc(HObj("list", kind="list", items=list(args)))
+                    outs = it.call_function(st, init, [arg], {}, None, self_val=me)
+                else:
+                    made = []
+
+                    def ctor(i, s_, a, k, n_, _made=made, _me=me):
+                        _made.append(1)
+                        return [(s2, "val", _me) if k2 == "val" else (s2, k2, v2) for (s2, k2, v2) in i.call_function(s_, init, [a[0]], {}, n_, self_val=_me)]
+                    it.stubs["_TagExpressionV1"] = ctor
+                    it.stubs["TagExpression"] = ctor
+                    outs = it.call_function(st, pv1, [" ".join(args)], {}, None)
+                    it.stubs.pop("_TagExpressionV1", None)
+                    it.stubs.pop("TagExpression", None)
+                if len(outs) != 1 or outs[0][1] != "val":
+                    raise AnalysisError("v1 expression %r (%s form) not foldable: %r" % (args, form, [(k, v) for _, k, v in outs][:3]))
+                s1 = outs[0][0]
+                for tags in universe:
+                    o2 = it.call_function(s1.fork(), chk_f, [tags], {}, None, self_val=me)
+                    chk.instance("U1")
+
+                    def lit(l):
+                        return (l[1:] not in tags) if l.startswith("-") else (l in tags)
+                    want = all(any(lit(l) for l in g) for g in formula)
+                    if len(o2) == 1 and o2[0][1] == "val" and o2[0][2] is want:
+                        chk.ok("U1", {"arguments": args, "form": form, "tags": list(tags), "selected": want}, nontrivial_key=(tuple(args), form, tags))
+                    else:
+                        _fail(chk, "U1", init, "%r (%s) on %s -> %r" % (args, form, list(tags), [(k, v) for _, k, v in o2][:2]),
+                              "the old-style expression %r (%s form) on the tags %s gives %r; its documented meaning (arguments AND-ed, "
+                              "commas OR-ed, - or ~ negates, @ optional, :n is only a limit) gives %s" % (
+                                  args, form, list(tags), [(k, v) for _, k, v in o2][:2], want))
+    chk.absorb(it)
 
 
 def _raises_named(ix, func, exc, name):
